@@ -70,7 +70,7 @@ def parseEC2 (raw : Bytes) : ParseRes :=
       else if (lookup Generated.Cose.ecdsaVerifyTable (getInt vals 3)).isNone then .err .unsupportedAlgorithm
       else .ok (.ec2 (getInt vals 3) (getInt vals (-1)) (getBytes vals (-2)) (getBytes vals (-3))) rest
 
-/-- `UnmarshalEdDSAPublicKey` (conditions in the order of the source; `okpConds` pins that order). -/
+/-- `UnmarshalEdDSAPublicKey` (conditions in the order of the source; `okpConds` holds them, in that order). -/
 def parseOKP (raw : Bytes) : ParseRes :=
   match decode raw with
   | none => .err .invalidKey
